@@ -77,46 +77,68 @@ class BArr(numpy.ndarray):
 
     # reductions as methods (ndarray methods bypass the protocols)
     def sum(self, axis=None, dtype=None, out=None, keepdims=False, **kw):
+        _guard_kw("sum", kw, out)
         return _reduce_add(self, axis, keepdims)
 
     def mean(self, axis=None, dtype=None, out=None, keepdims=False, **kw):
+        _guard_kw("mean", kw, out)
         return b_mean(self, axis=axis, keepdims=keepdims)
 
     def max(self, axis=None, out=None, keepdims=False, **kw):
+        _guard_kw("max", kw, out)
         return _reduce_cmp(self, axis, keepdims, lambda a, b: ite(a >= b, a, b))
 
     def min(self, axis=None, out=None, keepdims=False, **kw):
+        _guard_kw("min", kw, out)
         return _reduce_cmp(self, axis, keepdims, lambda a, b: ite(a <= b, a, b))
 
     def all(self, axis=None, out=None, keepdims=False, **kw):
+        _guard_kw("all", kw, out)
         return _reduce_bool(self, axis, keepdims, lambda a, b: _and(a, b), True)
 
     def any(self, axis=None, out=None, keepdims=False, **kw):
+        _guard_kw("any", kw, out)
         return _reduce_bool(self, axis, keepdims, lambda a, b: _or(a, b), False)
 
     def dot(self, other):
         return _function(numpy.dot, (self, other), {})
 
     def std(self, axis=None, dtype=None, out=None, ddof=0, keepdims=False, **kw):
+        _guard_kw("std", kw, out)
         return b_std(self, axis=axis, ddof=ddof, keepdims=keepdims)
 
     def var(self, axis=None, dtype=None, out=None, ddof=0, keepdims=False, **kw):
+        _guard_kw("var", kw, out)
         return b_var(self, axis=axis, ddof=ddof, keepdims=keepdims)
 
     def argmax(self, axis=None, **kw):
+        _guard_kw("argmax", kw)
         return _arg_ext(self, axis, lambda a, b: a > b)
 
     def argmin(self, axis=None, **kw):
+        _guard_kw("argmin", kw)
         return _arg_ext(self, axis, lambda a, b: a < b)
 
     def argsort(self, axis=-1, kind=None, order=None, **kw):
         return _argsort(self, axis)
 
     def cumsum(self, axis=None, **kw):
+        _guard_kw("cumsum", kw)
         return _function(numpy.cumsum, (self,), dict(axis=axis))
 
     def ptp(self, axis=None, **kw):
+        _guard_kw("ptp", kw)
         return self.max(axis) - self.min(axis)
+
+
+def _guard_kw(name, kw, out=None):
+    """options a reduction override does not model (where=, initial=, out=) must not be silently ignored"""
+    if out is not None:
+        raise Unsupported("%s(out=...) on a symbolic array" % name)
+    for k, v in kw.items():
+        if v is None or v is False:
+            continue
+        raise Unsupported("%s(%s=%r) on a symbolic array is not modelled" % (name, k, v))
 
 
 def _concrete_key(key):
